@@ -58,6 +58,22 @@ void YmFmOPN2::reset()
 
 void YmFmOPN2::writeReg(uint32_t port, uint16_t addr, uint8_t data)
 {
+    if(m_queueCount >= static_cast<long>(c_queueSize))
+    {
+        // The queue is full: hand the oldest write over to the chip right now,
+        // otherwise the head laps the tail and pending writes get lost and reordered
+        ymfm::ym2612 *chip_r = reinterpret_cast<ymfm::ym2612*>(m_chip);
+        const Reg &front = m_queue[m_tailPos++];
+
+        if(m_tailPos >= c_queueSize)
+            m_tailPos = 0;
+        --m_queueCount;
+
+        const uint32_t addr1 = 0 + 2 * ((front.addr >> 8) & 3);
+        chip_r->write(addr1, front.addr & 0xff);
+        chip_r->write(addr1 + 1, front.data);
+    }
+
     Reg &back = m_queue[m_headPos++];
     back.addr = port > 0 ? addr | 0x100 : addr;
     back.data = data;
